@@ -114,7 +114,7 @@ def mismatch_outcomes(stmt, optional, other):
 def comparing_if(ifs, name):
     """(outermost if, operand compared with `name`): the first `if` of `ifs` that — in its own test or in the test of an if nested in it — compares the name `name` with another value."""
     for n in ifs:
-        for x in ast.walk(n):
+        for x in source.walk_explicit(n):
             if isinstance(x, ast.If):
                 m = compared_with(x.test, name)
                 if m is not None:
@@ -458,8 +458,11 @@ def run(chk):
             N = const.value
             try:
                 tv = [bool(eval_with(hb[0].test, {iv: k, "HTTP_DOWNLOAD_RETRIES": N})) for k in range(N + 1)]
-                arm = [x for x in hb[0].body if not is_logging_stmt(x)]
-                ok = tv == [k == N for k in range(N + 1)] and bool(arm) and isinstance(arm[0], ast.Raise) and arm[0].exc is None
+                # whichever arm starts (logging aside) with the bare re-raise must be the one taken exactly at the last index
+                arm_t = [x for x in hb[0].body if not is_logging_stmt(x)]
+                arm_f = [x for x in hb[0].orelse if not is_logging_stmt(x)]
+                bare = lambda a: bool(a) and isinstance(a[0], ast.Raise) and a[0].exc is None  # noqa: E731
+                ok = (bare(arm_t) and tv == [k == N for k in range(N + 1)]) or (bare(arm_f) and not bare(arm_t) and tv == [k != N for k in range(N + 1)])
                 detail = "" if ok else f"`{u(hb[0].test)}` over {iv} = 0..{N}: {tv}"
             except CannotEval as e:
                 detail = f"cannot evaluate `{u(hb[0].test)}`: {e}"
@@ -511,26 +514,30 @@ def run(chk):
             hn = gdd.by_ast.get(id(h), [])
             ok = bool(hn) and all(gdd.exit.id not in gdd.reachable([x]) for x in hn) and any(isinstance(x, ast.Raise) and x.exc is not None and "DataError" in u(x.exc) for x in ast.walk(h))
             chk.ob("O14.3", f"`except {u(h.type)}` converts to a data error on every path", ok, h, "")
-    post = [n for n in dd.body if isinstance(n, ast.If) and n.lineno > nd[0].lineno]
-    ex = [n for n in post if pat.is_(n.test, f"not os.path.isfile({ddp[2]})", f"not os.path.exists({ddp[2]})")]
-    ok = bool(ex) and raises_on_all_paths(gdd, gdd.edge_targets(gdd.node_of(ex[0]), "true"))
+    post = [n for n in source.flat(dd.body) if isinstance(n, ast.If) and n.lineno > nd[0].lineno]
+    # a raise after the transfer whose only explicit guard fact is "the file is not there" (arm / polarity / guard-clause vs if-else form do not matter)
+    ex = [x for n in post for x in ast.walk(n) if isinstance(x, ast.Raise) and [f_ for f_ in pat.fact_nodes(x, path_sensitive=False)
+          if pat.is_(f_, f"not os.path.isfile({ddp[2]})", f"not os.path.exists({ddp[2]})")] and len(pat.fact_nodes(x, path_sensitive=False)) == 1]
+    ok = bool(ex) and raises_on_all_paths(gdd, [gdd.node_of(ex[0])])
     chk.ob("O14.3", "downloader: missing file after the transfer raises", ok, ex[0] if ex else dd, "")
     S, ok, detail = size_verification(dd, gdd, post, ddp[2], ddp[3])
     chk.ob("O14.3", "downloader: size mismatch after the transfer raises", ok, S if S is not None else dd, detail)
     # a raise that is reached exactly when the base URL is empty / offline mode is on, before the transfer (guard facts: polarity- and arm-insensitive)
-    pre = [x for n in dd.body if isinstance(n, ast.If) and n.lineno < nd[0].lineno for x in ast.walk(n) if isinstance(x, ast.Raise)]
-    tests = {u(f_) for x in pre for f_ in pat.fact_nodes(x)}
-    ok = any(pat.fact_nodes(x) and all(pat.is_(f_, f"not {ddp[1]}") for f_ in pat.fact_nodes(x)) and raises_on_all_paths(gdd, [gdd.node_of(x)]) for x in pre) \
-        and any(pat.fact_nodes(x) and all(pat.is_(f_, "self.offline") for f_ in pat.fact_nodes(x)) and raises_on_all_paths(gdd, [gdd.node_of(x)]) for x in pre)
+    pre = [x for n in source.flat(dd.body) if isinstance(n, ast.If) and n.lineno < nd[0].lineno for x in ast.walk(n) if isinstance(x, ast.Raise) and x.lineno < nd[0].lineno]
+    xf = lambda x: pat.fact_nodes(x, path_sensitive=False)  # noqa: E731 - the explicit branch conditions of the raise
+    tests = {u(f_) for x in pre for f_ in xf(x)}
+    ok = any(xf(x) and all(pat.is_(f_, f"not {ddp[1]}") for f_ in xf(x)) and raises_on_all_paths(gdd, [gdd.node_of(x)]) for x in pre) \
+        and any(xf(x) and all(pat.is_(f_, "self.offline") for f_ in xf(x)) and raises_on_all_paths(gdd, [gdd.node_of(x)]) for x in pre)
     chk.ob("O14.3", "no base URL / offline mode raise before any transfer", ok, pre[0] if pre else dd, f"{sorted(tests)}")
     DC = ldr.cls("Decompressor")
     dc = method(ldr, DC, "decompress")
     gdc = cfg_of(dc)
     dcp = params(dc, 4)
     idc = [n for n in walk_body(dc) if isinstance(n, ast.Call) and dotted(n.func) == "io.decompress"]
-    post = [n for n in dc.body if isinstance(n, ast.If) and idc and n.lineno > idc[0].lineno]
-    ex = [n for n in post if pat.is_(n.test, f"not os.path.isfile({dcp[2]})")]
-    ok = bool(ex) and raises_on_all_paths(gdc, gdc.edge_targets(gdc.node_of(ex[0]), "true"))
+    post = [n for n in source.flat(dc.body) if isinstance(n, ast.If) and idc and n.lineno > idc[0].lineno]
+    ex = [x for n in post for x in ast.walk(n) if isinstance(x, ast.Raise) and [f_ for f_ in pat.fact_nodes(x, path_sensitive=False) if pat.is_(f_, f"not os.path.isfile({dcp[2]})")]
+          and len(pat.fact_nodes(x, path_sensitive=False)) == 1]
+    ok = bool(ex) and raises_on_all_paths(gdc, [gdc.node_of(ex[0])])
     chk.ob("O14.3", "decompressor: missing document file raises", ok, ex[0] if ex else dc, "")
     S, ok, detail = size_verification(dc, gdc, post, dcp[2], dcp[3])
     chk.ob("O14.3", "decompressor: size mismatch raises", ok, S if S is not None else dc, detail)
